@@ -318,6 +318,12 @@ func (ex *Exec) mergeVals(pcs []string, vals []Val, sort string) Val {
 	out := vals[0]
 	out.place = nil
 	out.origin = nil
+	out.resl = nil
+	for _, v := range vals {
+		if out.backing == nil {
+			out.backing = v.backing // provenance is an over-approximation: any branch may alias
+		}
+	}
 	out.closure, out.fn = nil, nil
 	out.t = ex.vc.define("m", sort, t)
 	if vals[0].place != nil {
@@ -703,6 +709,9 @@ func (ex *Exec) load(st *State, p *Place) Val {
 	v := Val{t: t, typ: typ}
 	if _, ok := typ.Underlying().(*types.Slice); ok {
 		v.origin = p
+		if p.kind == pkHeap && !p.phantom {
+			v.backing = p
+		}
 	}
 	ex.assumeAllocated(st, v)
 	return v
@@ -799,6 +808,11 @@ func (ex *Exec) store(fr *Frame, st *State, p *Place, v Val, pos token.Pos) {
 			return
 		}
 		// write-back through the place the slice header was loaded from (value semantics, A-APPEND)
+		if p.slice.backing != nil && (p.slice.origin == nil || p.slice.origin.kind != pkHeap) {
+			// the header reached this variable from a heap object (assignment, parameter): the element store also
+			// hits that object's backing array
+			fr.clobberSlice(st, Val{t: p.slice.t, typ: p.slice.typ, origin: p.slice.backing}, pos, "element store through a slice that shares a heap object's backing array")
+		}
 		if p.slice.origin == nil {
 			vc.droppedStores++
 			vc.note("slice element store without known origin dropped (functional posts about that slice are not trusted)")
